@@ -79,6 +79,9 @@ type Expr struct {
 	// code blocks (Action, AndCode, NotCode, State): unique id within the grammar.
 	ID  int       `json:"id,omitempty"`
 	Ops []StateOp `json:"ops,omitempty"`
+	// Lim (KAndCode / KNotCode, > 0): the block answers "state[k1] < Lim" instead of what the
+	// plan says - a predicate on the state store, as in ( &{depth > 0} #{depth--} )*.
+	Lim int `json:"lim,omitempty"`
 
 	// Code is the literal code block text including the braces (front-end checks only; ""
 	// = the recorder call / stub rendered by the printer).
